@@ -6,9 +6,11 @@ runs the batches in a few worker processes (each batch is an independent closed-
 construction) and merges what they recorded into the report in a fixed order."""
 import multiprocessing as mp
 import os
+import re
 import time
 import traceback
 
+from .. import gcheck
 from ..gcheck import GFamily, run_batches
 from ..families import bridges as fam
 from ..report import Report, MachineryError
@@ -22,13 +24,14 @@ NAMES = {"sram": "AXILiteSRAM", "axil2wb": "AXILite2Wishbone", "down": "AXILiteD
          "conv": "AXILiteConverter", "axil2csr": "AXILite2CSR", "axil2axi": "AXILite2AXI", "wb2axil": "Wishbone2AXILite",
          "wb2axi": "Wishbone2AXI", "axi2axil": "AXI2AXILite", "axi2wb": "AXI2Wishbone", "ahb2wb": "AHB2Wishbone",
          "chain_wb_axil": "SoCBusHandler.add_adapter(wishbone->axi-lite)",
-         "chain_axil_wb": "SoCBusHandler.add_adapter(axi-lite->wishbone)"}
+         "chain_axil_wb": "SoCBusHandler.add_adapter(axi-lite->wishbone)",
+         "chain_s2m_wb": "SoCBusHandler.add_adapter(axi-lite bus<-wishbone slave, s2m)"}
 NPROC = 4
 
 
 def describe(s):
     return "%s(%s)" % (NAMES.get(s["kind"], s["kind"]),
-                       ", ".join("%s=%s" % (k, v) for k, v in sorted(s.items()) if k not in ("kind", "mp", "alone", "cost")))
+                       ", ".join("%s=%s" % (k, v) for k, v in sorted(s.items()) if k not in ("kind", "mp", "alone", "cost", "wit")))
 
 
 def family(mp_):
@@ -82,6 +85,22 @@ def batches_of(cfgs):
     return out
 
 
+_WIT_RE = re.compile(r'<<\s*"WIT",\s*(\d+),\s*"([^"]*)"\s*>>')      # TLC wraps long tuples over several lines
+
+
+def _witness_loop(seen):
+    """GraphLoop that collects the <<"WIT", wi, name>> lines (specs/bridges/BridgeWit.tla) of the last TLC run of
+    every exploration (that run visits every reachable product state) into seen: wi -> set of names"""
+    class Loop(gcheck.GraphLoop):
+        def stats(self):
+            res = self.final
+            if res is not None:
+                for mm in _WIT_RE.finditer(res.out):
+                    seen.setdefault(int(mm.group(1)), set()).add(mm.group(2))
+            return super().stats()
+    return Loop
+
+
 def _worker(args):
     prop, tier, seed, idx, mp_, live, batch = args
     from .. import py312_tracer
@@ -89,10 +108,13 @@ def _worker(args):
     rec = _Recorder(prop, tier, seed)
     f, invs = family(mp_)
     t0 = time.time()
+    seen = {}
+    gcheck.GraphLoop = _witness_loop(seen)          # this is a forked worker process: nobody else sees the patch
     try:
         stats = run_batches(f, rec, [batch], invs, PROPS if live else [], spec_budget=300000, total_budget=1200000,
                             followup=True, log=lambda *a: None, tlc_timeout=3000)
         rec.add(batch_wall_s=[[idx, round(time.time() - t0, 1)]])      # evidence only
+        rec.calls.append(("witnesses", {k: sorted(v) for k, v in seen.items()}))
         return idx, rec.calls, stats, None
     except MachineryError as ex:
         return idx, rec.calls, [], "machinery: %s" % ex
@@ -128,7 +150,12 @@ def run(prop, report, tier, seed):
                   "class accepts them (32/64 bit with a reduced write alphabet otherwise); every chain ends in the "
                   "repository's own memory of the slave-side protocol behind a harness stall shim (acknowledge / ready / "
                   "response delayed by the environment; Wishbone acknowledge latency >= 1)")
-    report.assume("error responses are produced by a faulting upper half of the backing memory (SLVERR / Wishbone err with ack)")
+    report.assume("error responses are produced by a faulting upper half of the backing memory (SLVERR / Wishbone err with ack); "
+                  "for down-converters also by a faulting region of one narrow word inside a master word")
+    report.assume("additional partner freedoms in dedicated configurations: Wishbone cyc without stb and stb without cyc between "
+                  "requests, AHB NONSEQ address phases with HSEL low, AXI-Lite partners that accept read addresses / write data "
+                  "ahead (buffer stage in the shim), byte addressed Wishbone side, 64-bit AHB, add_adapter in direction s2m; each "
+                  "is guarded by a TLC-printed witness (vacuity = machinery error)")
     bl = batches_of(cfgs)
     jobs = [(prop, tier, seed, i, m, l, b) for i, (m, l, b) in enumerate(bl)]
     # biggest first, results merged in batch order
@@ -140,6 +167,7 @@ def run(prop, report, tier, seed):
         results[idx] = (calls, stats, err)
     all_stats = []
     errors = []
+    seen = {}
     for i in range(len(bl)):
         calls, stats, err = results[i]
         for name, a in calls:
@@ -147,6 +175,9 @@ def run(prop, report, tier, seed):
                 report.add(**a)
             elif name == "sample":
                 report.sample(a[0], cap=6)
+            elif name == "witnesses":
+                for k, v in a.items():
+                    seen.setdefault(int(k), set()).update(v)
             else:
                 report.violation(*a)           # confirmed by linear replay + T-mode validation in the worker
                 report.add(traces_validated_against_impl=1)
@@ -157,6 +188,19 @@ def run(prop, report, tier, seed):
                clauses=sorted(set(sum(M_INVS.values(), []))) + S_INVS + PROPS, per_dut=all_stats)
     if errors:
         raise MachineryError("; ".join(errors)[:4000])
+    # vacuity guard: a configuration that exists for a particular stimulus / parameter class must have shown it
+    # (DUTs dropped after a violation make no claim)
+    explored = {s["dut"] for s in all_stats}
+    wit = {}
+    for spec, cfg in cfgs:
+        if not spec.get("wit"):
+            continue
+        got = seen.get(cfg["wi"], set())
+        wit[describe(spec)] = sorted(got)
+        missing = set(spec["wit"]) - got
+        if missing and describe(spec) in explored:
+            raise MachineryError("vacuity: %s never showed %s" % (describe(spec), sorted(missing)))
+    report.add(witnesses=wit)
     report.cov["exhaustive"] = True
 
 
